@@ -183,6 +183,17 @@ def run(tier: str, rng: random.Random, proof_ok: bool) -> dict:
             cases.append(std_case(v, x, "sync", lazy=lazy, tag="user" if keep_user else "builtin"))
     finally:
         G.WF_ONLY[0] = False
+    # failing members / keys / values that are long and alike (renderers abbreviate what they show)
+    LONG = [G.S("https://example.org/a/rather/long/path/%d" % i) for i in range(4)]
+    SHORT3 = ("Scalar", ("KStr",), None, [], [("PMaxLength", 3), ("PStartsWith", G.S("x"))], [])
+    for v, x in [(("SetV", SHORT3, [], [], None), ("VSet", LONG[:3])),
+                 (("ListV", SHORT3, [], [], None), ("VList", LONG[:2] + LONG[:1])),
+                 (("MapV", SHORT3, SHORT3, [], [], None), ("VDict", [P(LONG[0], LONG[1]), P(LONG[2], LONG[3])])),
+                 (("ListV", ("SetV", SHORT3, [], [], None), [], [], None), ("VList", [("VSet", LONG[:2]), ("VSet", LONG[1:4])])),
+                 (("DictAnyV", [P(LONG[0], SHORT3), P(LONG[1], SHORT3)], None, None, True), ("VDict", [P(LONG[0], LONG[2]), P(LONG[1], LONG[3])])),
+                 (("DictAnyV", [P(LONG[0], SHORT3), P(LONG[1], SHORT3)], None, None, True), ("VDict", [P(LONG[2], LONG[2])])),
+                 (("UnionV", [SHORT3, ("SetV", SHORT3, [], [], None), ("NoneV", None)]), ("VSet", LONG[1:4]))]:
+        cases.append(std_case(v, x, "sync", tag="builtin"))
     for c in cases:
         try:
             observe(c)
@@ -260,6 +271,9 @@ def run(tier: str, rng: random.Random, proof_ok: bool) -> dict:
             e2 = InvalidReturnError(inv)
             if type(m1) is not str or type(str(e1)) is not str or type(str(e2)) is not str:
                 report("C12:message-not-str", "message renderer did not return a string", c)
+            elif len(m1.split("\n")) != message_lines(inv):
+                report("C12:message-entries", f"the message has {len(m1.split(chr(10)))} lines for an error tree with {message_lines(inv)} "
+                                              f"entries (one per failing key, index, pair, member, variant and predicate): {m1!r}", c)
         except Exception as e:  # noqa
             report("C12:message-raised", f"the signature message renderer raised {e!r} on {inv!r}", c)
         if len(samples) < 3 and exc is None and kids:
@@ -271,6 +285,30 @@ def run(tier: str, rng: random.Random, proof_ok: bool) -> dict:
            "samples": samples or [{"note": "see rule"}], "traces_validated_against_impl": len(lines),
            "corr_wall_s": round(time.time() - t0, 1)}
     return {"violations": violations, "coverage": cov}
+
+
+def message_lines(inv: Any) -> int:
+    """Lines the message must have: a header per container error and one line per failure below it."""
+    from koda_validate import errors as KE
+    e = inv.err_type
+    many = lambda kids: 1 + (sum(message_lines(k) for k in kids) if kids else 1)
+    if isinstance(e, KE.PredicateErrs):
+        return 1 + (len(e.predicates) or 1)
+    if isinstance(e, KE.ContainerErr):
+        return message_lines(e.child)
+    if isinstance(e, KE.UnionErrs):
+        return 1 + sum(message_lines(k) for k in e.variants)
+    if isinstance(e, KE.KeyErrs):
+        return many(list(e.keys.values()))
+    if isinstance(e, KE.IndexErrs):
+        return many(list(e.indexes.values()))
+    if isinstance(e, KE.SetErrs):
+        return many(list(e.item_errs))
+    if isinstance(e, KE.ExtraKeysErr):
+        return 2
+    if isinstance(e, KE.MapErr):
+        return 1 + sum(message_lines(k) for kv in e.keys.values() for k in (kv.key, kv.val) if k)
+    return 1
 
 
 def model_compare(lines, violations) -> int:
@@ -328,3 +366,7 @@ def replay(path: str) -> int:
     except Exception as e:  # noqa
         print("raised:", repr(e))
         return 1
+
+
+from ..facts import attach as _attach, typechecks as _typechecks  # noqa: E402
+_attach(globals(), _typechecks.obligation("C12"))
